@@ -132,6 +132,17 @@ class Ctx:
             self.names[name] = len(self.names) + 1
         return self.names[name]
 
+    def lower_table(self):
+        """SymbolTable._normalize on name ids: entry i = id of the normalised form of name i (entry 0 unused)"""
+        from psyclone.psyir.symbols import SymbolTable
+        norm = SymbolTable._normalize   # pylint: disable=protected-access
+        for name in list(self.names):
+            self.name_id(norm(name))
+        tab = [0] * (len(self.names) + 1)
+        for name, i in self.names.items():
+            tab[i] = self.names[norm(name)]
+        return tab
+
     def kind_id(self, node):
         k = type(node).__name__
         if k not in self.kinds:
@@ -880,11 +891,31 @@ def run_case(src, tweaks, r, side, edits=None, rng=None, nedits=0, want_model=Tr
     elif fail is not None and before != after and "written code" not in fail["observed"]:
         fail = dict(fail, observed=fail["observed"] + "\nand after the edits the written code of the " +
                     ("copy" if side == "orig" else "original") + " changed:\n" + first_diff(before, after))
+    out["keys_ok"] = table_keys_ok(ctx)
     if want_model:
-        out["line"] = sx([MODE, w0[0], w0[1], w0[2], w0[3], r, model_edits])
+        out["line"] = sx([MODE, w0[0], w0[1], w0[2], w0[3], r, model_edits, ctx.lower_table()])
     if fail is not None:
         out.update(status="fail", fail=fail)
     return out
+
+
+def table_keys_ok(ctx):
+    """the assumption `TablesKeyed` + `key` of the model on the real tables: every table is a dict keyed by
+    `_normalize(name)` of its symbols, in the order of `symbols`; -> None or a description of the table that is not"""
+    from psyclone.psyir.nodes import ScopingNode
+    from psyclone.psyir.symbols import SymbolTable
+    norm = SymbolTable._normalize   # pylint: disable=protected-access
+    for r in ctx.roots:
+        for n in r.walk(ScopingNode):
+            tab = n.symbol_table
+            keys = list(tab.symbols_dict.keys())
+            want = [norm(s.name) for s in tab.symbols]
+            if keys != want or len(set(keys)) != len(keys):
+                return f"table of {type(n).__name__}: keys {keys[:12]} but normalised names {want[:12]}"
+            for s in tab.symbols:
+                if tab.lookup(s.name, scope_limit=n) is not s or (s.name in tab) is not True:
+                    return f"table of {type(n).__name__}: lookup('{s.name}') is not the symbol of that name"
+    return None
 
 
 def first_diff(a, b):
@@ -1173,8 +1204,8 @@ def run(chk):
         if mo.startswith("(") and mo.endswith(")"):
             mm = split_model(mo)
         if mm is not None:
-            m1, m2, ck, ok = mm
-            agreed = (m1 == res["real1"] and m2 == res["real2"])
+            m1, m2, ck, ok, keyed = mm
+            agreed = (m1 == res["real1"] and m2 == res["real2"] and keyed == "1" and res.get("keys_ok") is None)
             # the model's prediction about the written code of the unedited side
             pred = (ck == "1") if case["side"] == "orig" else (ok == "1")
             if agreed and pred and not res["text_kept"]:
@@ -1183,6 +1214,12 @@ def run(chk):
         if not agreed and reported[0] < 3:
             reported[0] += 1
             which = "after copy" if mm is None or mm[0] != res["real1"] else "after the edits"
+            if mm is not None and mm[0] == res["real1"] and mm[1] == res["real2"] and \
+                    (mm[4] != "1" or res.get("keys_ok") is not None):
+                chk.correspondence_broken(
+                    "a symbol table is not keyed by the normalised names of its symbols (TablesKeyed, the hypothesis of "
+                    "C15_case_copy_eq)", case, f"tablesKeyedB = {mm[4]}", str(res.get("keys_ok")))
+                continue
             chk.correspondence_broken(
                 f"object graph of the real code differs from C15.copy/C15.run ({which})",
                 case, (mm[0] if which == "after copy" else mm[1]) if mm else mo[:300],
@@ -1232,7 +1269,9 @@ def split_model(mo):
             cur += ch
     if cur:
         parts.append(cur)
-    return tuple(parts) if len(parts) == 4 else None
+    if len(parts) == 4:
+        parts.append("1")
+    return tuple(parts) if len(parts) == 5 else None
 
 
 def replay(payload):
